@@ -41,6 +41,7 @@ struct Fields {
         return ir * nt + it;
     }
 };
+static double g_scale = 1.0; // uniform scale of the diffusion and reaction coefficients (the interior rows of the operator)
 struct SynGeometry : DomainGeometry {
     const Fields& f;
     explicit SynGeometry(const Fields& ff)
@@ -60,14 +61,14 @@ struct SynCoeff : DensityProfileCoefficients {
         : f(ff)
     {
     }
-    double alpha(const double&) const override { return 1.0; }
+    double alpha(const double&) const override { return g_scale; }
     double beta(const double& r) const override
     {
         size_t ir = 0;
         for (size_t i = 0; i < f.rad.size(); i++)
             if (fabs(f.rad[i] - r) < fabs(f.rad[ir] - r))
                 ir = i;
-        return f.beta[ir];
+        return g_scale * f.beta[ir];
     }
     double getAlphaJump() const override { return 0.0; }
 };
@@ -151,6 +152,11 @@ static Instance load(const mj::Value& t)
         I.dirichlet[n] = (ir == I.nr - 1) || (ir == 0 && I.dir);
         I.coarse[n]    = (ir % 2 == 0) && (it % 2 == 0);
     }
+    if (g_scale != 1.0) // alpha -> s alpha, beta -> s beta scales every row of the operator except the identity rows of Dirichlet nodes
+        for (int n = 0; n < I.N; n++)
+            if (!I.dirichlet[n])
+                for (auto& w : I.A[n])
+                    w *= (LD)g_scale;
     for (const auto& l : t["lines"].arr()) {
         std::vector<int> nodes;
         if (l["kind"].str() == "C")
@@ -302,6 +308,8 @@ int main(int argc, char** argv)
     std::ifstream in(argv[1]);
     std::string what = argv[2];
     int threads      = atoi(argv[3]);
+    if (argc > 4)
+        g_scale = atof(argv[4]);
     std::string line;
     long n = 0, nfail = 0, nops = 0;
     FILE* prog = fopen((std::string(argv[1]) + "." + what + ".progress").c_str(), "w");
